@@ -1978,10 +1978,21 @@ pub fn c13(rec: &mut Rec, rng: &mut Rng, thorough: bool) {
             let asks = with_expect && ev.trim() == "100-continue";
             let want = asks && n_body > 0 && n_body <= limit;
             let rejected = n_body > limit && n_body > 0;
-            // the head alone (maybe split), no body byte yet
+            // the head alone (maybe split), no body byte yet — or, one time in three, with the FIRST bytes of the body in
+            // the same read as the end of the head (a client that does not wait for the interim response): the interim
+            // is still queued, written, and the rest of the body completes the request
+            let body = gen::body_bytes(rng, n_body);
+            let pre = if n_body >= 2 && n_body <= limit && rng.chance(1, 3) { rng.range(1, (n_body - 1).min(600)) } else { 0 };
             let cuts = gen::cuts_r(rng, &head);
             let mut last = String::new();
-            for ch in gen::split_at_cuts(&head, &cuts) {
+            let mut pieces = gen::split_at_cuts(&head, &cuts);
+            if pre > 0 {
+                if let Some(l) = pieces.last_mut() {
+                    l.extend_from_slice(&body[..pre]);
+                }
+                rec.count("continue:body-prefix-with-the-head");
+            }
+            for ch in pieces {
                 for r in d.recv(rec, &ch, 0) {
                     last = r;
                 }
@@ -2038,11 +2049,11 @@ pub fn c13(rec: &mut Rec, rng: &mut Rng, thorough: bool) {
             if last != "ok" {
                 break;
             }
-            // now the body: the request is delivered normally, nothing more is written
-            let body = gen::body_bytes(rng, n_body);
-            if n_body > 0 {
-                let cuts = gen::cuts(rng, &body, 4);
-                for ch in gen::split_at_cuts(&body, &cuts) {
+            // now the (rest of the) body: the request is delivered normally, nothing more is written
+            if n_body > pre {
+                let rest = body[pre..].to_vec();
+                let cuts = gen::cuts(rng, &rest, 4);
+                for ch in gen::split_at_cuts(&rest, &cuts) {
                     d.recv(rec, &ch, 0);
                 }
             }
